@@ -275,7 +275,7 @@ pub proof fn lemma_cfg_g_ensure<'a>(st: CfgSt<'a>, subs: Map<Tid, Term<Sub>>, ti
 {
     lemma_cfg_inv_ensure(st, subs, tid, f);
     if !st.jt.contains_key((tid, f.tid)) {
-        broadcast use axiom_cfg_find_block;
+        broadcast use lemma_cfg_find_block_ok;
         let b = cfg_find_block::<'a>(subs, tid)->Some_0;
         lemma_cfg_g_add_block(st, b, f);
     }
